@@ -23,6 +23,7 @@ type C12Case struct {
 	Unsupported int    `json:"unsupported,omitempty"`
 	Unrep       int    `json:"unrep,omitempty"`
 	Cross       bool   `json:"cross,omitempty"` // also ask a worker process started with SONIC_ENCODER_USE_VM=1
+	IntoK       int    `json:"into_k,omitempty"` // k>0: also EncodeInto a caller buffer of capacity len(output)-(k-1) on both back ends
 }
 
 func init() { register("C12", func() Case { return &C12Case{} }) }
@@ -43,6 +44,9 @@ func drawC12(t *rapid.T) Case {
 		c.Mask |= optSortMapKeys
 	}
 	c.Cross = rapid.IntRange(0, 29).Draw(t, "cross") == 0
+	if rapid.Bool().Draw(t, "into") {
+		c.IntoK = rapid.IntRange(1, 14).Draw(t, "intok")
+	}
 	switch rapid.IntRange(0, 11).Draw(t, "extra") {
 	case 0:
 		c.Unsupported = rapid.IntRange(1, 8).Draw(t, "unsupkind")
@@ -140,6 +144,30 @@ func (c *C12Case) Run() (res stat.Result) {
 		for _, ch := range a.out {
 			if ch == '"' || ch >= '0' && ch <= '9' {
 				numOrStr = true
+			}
+		}
+		if c.IntoK > 0 {
+			// the same value into a caller buffer whose capacity is the output length minus 0..13: the back
+			// ends grow the buffer at different places (the VM appends, the JIT checks space per opcode)
+			capN := len(a.out) - (c.IntoK - 1)
+			if capN < 0 {
+				capN = 0
+			}
+			res.Sub++
+			res.Classes = append(res.Classes, "into-near-output-length")
+			for _, vmOn := range []bool{false, true} {
+				verifhook.SetEncoderVM(vmOn)
+				buf := make([]byte, 0, capN)
+				e := encoder.EncodeInto(&buf, vals[i], opts)
+				verifhook.SetEncoderVM(false)
+				wantOut := a.out
+				if vmOn {
+					wantOut = b.out
+				}
+				if e != nil || len(buf) != len(wantOut) || (c.Mask&optSortMapKeys != 0 && !bytes.Equal(buf, wantOut)) {
+					res.Err = fmt.Errorf("EncodeInto(#%d of %s, mask %#x, cap %d, vm=%v) = %s, %v; Encode gives %s", i, ty, c.Mask, capN, vmOn, clipB(buf), e, clipB(wantOut))
+					return
+				}
 			}
 		}
 	}
